@@ -100,6 +100,26 @@ type coverage struct {
 	domLen, uLen, pLen, nM [256]bool
 	domByte, uByte, pByte  [256]bool
 	codes                  [256]bool
+	combos                 map[int]struct{}
+}
+
+// noteCombo records a decided (method-list length, position of the acceptable method | absent, auth mode) combination.
+func (c *coverage) noteCombo(sc *scen) {
+	n := len(sc.Methods)
+	pos := indexByte(sc.Methods, map[bool]byte{false: 0, true: 2}[sc.AuthOn])
+	if pos < 0 {
+		pos = n
+	}
+	id := methodPrefix[n] + pos
+	if sc.AuthOn {
+		id += methodCombos
+	}
+	c.mu.Lock()
+	if c.combos == nil {
+		c.combos = map[int]struct{}{}
+	}
+	c.combos[id] = struct{}{}
+	c.mu.Unlock()
 }
 
 func (c *coverage) note(sc *scen) {
@@ -148,6 +168,9 @@ func (c *coverage) report(rec *core.Rec, stream string) {
 	rec.Max(stream+".password_byte_values_seen", count(&c.pByte))
 	rec.Max(stream+".method_list_lengths_seen(of 255)", count(&c.nM))
 	rec.Max(stream+".dial_codes_seen", count(&c.codes))
+	if len(c.combos) > 0 {
+		rec.Max(fmt.Sprintf("%s.method_list_combinations_seen(of %d)", stream, 2*methodCombos), int64(len(c.combos)))
+	}
 }
 
 // ---- scenario generators ----
@@ -450,6 +473,9 @@ func runPart(e *core.Env, proto, stream string, n int) {
 		if race && kind != "e2e" {
 			kind = "e2e"
 		}
+		if kind == "cuts" && !e.Quick() && (i/len(schedules[proto]))%2 != 0 {
+			kind = "e2e" // thorough scales the random kinds 50x, the (expensive, enumerating) cut cases 25x
+		}
 		rec.Begin(proto, i, kind)
 		ok := core.Watchdog(90*time.Second, func() { runCase(e, proto, kind, i, seq, r, cov) })
 		if !ok {
@@ -501,7 +527,11 @@ func runCase(e *core.Env, proto, kind string, i, seq int, r *core.RNG, cov *cove
 	case "methods":
 		sc := genMethods(r, i, seq)
 		o := runRaw(sc, rawScript(sc))
+		before := k.nvio
 		one(sc, o, "methods")
+		if k.nvio == before {
+			cov.noteCombo(sc)
+		}
 		pos := "absent"
 		if p := indexByte(sc.Methods, map[bool]byte{false: 0, true: 2}[sc.AuthOn]); p >= 0 {
 			pos = map[bool]string{true: "first", false: "inner"}[p == 0]
